@@ -218,7 +218,9 @@ def comp_expr(comp: Any, v: Any) -> Any:
             arg = _rat(fn[2])
             for i, l in enumerate(fn[1]):
                 arg = arg + _rat(l) * v[i]
-            e = e * {"sin": sympy.sin, "cos": sympy.cos, "exp": sympy.exp}[fn[0]](arg)
+            e = e * {"sin": sympy.sin, "cos": sympy.cos, "exp": sympy.exp,
+                # an even root of a perfect square: |arg|, which is NOT arg where the coordinate expression is negative
+                "sqrtsq": lambda u: sympy.sqrt(u**2)}[fn[0]](arg)
         total = total + e
     return total
 
@@ -498,6 +500,12 @@ def judge_concrete(case: dict[str, Any]) -> list[tuple[str, str]]:
             if foreign:
                 out.append((f"foreign-symbols:{sysname}:{name}", f"{sysname} {name} of {case['comps']} contains symbols that are not "
                     f"coordinates of the field's own system: {sorted(set(foreign))[:4]} in {str(flat[j])[:200]}"))
+    for name, idxs in index.items():
+        for j in idxs:
+            if sympy.sympify(flat[j]).atoms(sympy.Derivative, sympy.Integral):
+                # an operator must return the differentiated expression: a leftover Derivative node cannot be evaluated
+                out.append((f"unevaluated:{sysname}:{name}", f"{sysname} {name} of {case['comps']} still contains an unevaluated "
+                    f"derivative: {str(flat[j])[:200]}"))
     if out:
         return out
     # identity residuals are judged relative to the sum of |top-level terms|
@@ -694,7 +702,7 @@ def _component(draw: Any, sysname: str, allow_zero: bool) -> Any:
                 powers.append(draw(st.sampled_from([0, 1, 1, 2, 3])))
         term: dict[str, Any] = {"c": draw(_coef()), "p": powers}
         if any(mask) and draw(st.integers(0, 2)) > 0:
-            name = draw(st.sampled_from(["sin", "cos", "exp"]))
+            name = draw(st.sampled_from(["sin", "cos", "exp", "sin", "cos", "exp", "sqrtsq"]))
             lin = []
             for i in range(3):
                 lin.append(draw(st.sampled_from(["1/1", "2/1", "-1/1", "1/2", "-3/2", "0/1"])) if mask[i] else "0/1")
